@@ -102,10 +102,14 @@ int main(void) {
     }
     else if (!strcmp(cmd, "dump")) { FILE *f = fopen(arg, "wb"); fwrite(out, 1, out_len, f); fclose(f); printf("dumped %zu wcalls %lu fcalls %lu\n", out_len, wcalls, fcalls); printed = 0; }
     else if (!strcmp(cmd, "extract")) {
-      char apath[2048], kpath[2048], odir[2048]; long ffa = -1, fwa = -1; sscanf(arg, "%2047s %2047s %2047s %ld %ld", apath, kpath, odir, &ffa, &fwa);
+      /* pre: 1 = mla_roarchive_info first, on the same source context (left where the call left it);
+              2 = a first extraction without any key (fails after the header was read), then the real one on the same context */
+      char apath[2048], kpath[2048], odir[2048]; long ffa = -1, fwa = -1, pre = 0; sscanf(arg, "%2047s %2047s %2047s %ld %ld %ld", apath, kpath, odir, &ffa, &fwa, &pre);
       MLAConfigHandle rc = NULL; st = mla_reader_config_new(&rc); if (strcmp(kpath, "-")) { char *k = slurp(kpath, NULL); st = mla_reader_config_add_private_key(rc, k); printf("status add_private_key %llu\n", (unsigned long long)st); free(k); }
       Src s; size_t n; s.data = (uint8_t *)slurp(apath, &n); s.len = n; s.pos = 0; XCtx x = {&s, odir, 0, ffa, fwa, 0};
       /* the same context pointer is given to the read/seek callbacks and to the file callback: its first field is the source */
+      if (pre == 1) { Src *sp = &s; struct ArchiveInfo inf = {0, 0}; uint64_t st0 = mla_roarchive_info(rcb, &sp, &inf); printf("pre_info %llu version %u\n", (unsigned long long)st0, inf.version); }
+      if (pre == 2 && strcmp(kpath, "-")) { MLAConfigHandle rc0 = NULL; mla_reader_config_new(&rc0); XCtx x0 = {&s, odir, 0, -1, -1, 0}; uint64_t st0 = mla_roarchive_extract(&rc0, rcb, scb, filecb, &x0); printf("pre_extract_without_key %llu files %d\n", (unsigned long long)st0, x0.nfiles); }
       st = mla_roarchive_extract(&rc, rcb, scb, filecb, &x);
       for (int i = 0; i < nfws; i++) { fclose(fws[i]->f); free(fws[i]); } nfws = 0; free(s.data);
       printf("extract_files %d cfg_cleared %d\n", x.nfiles, rc == NULL);
